@@ -10,7 +10,7 @@ open C09r_io
 
 let nat_of_hex s = nat_of_int (int_of_string ("0x" ^ s))
 
-let kind_of = function "f" -> KFetch | "r" -> KRead | "m" -> KCommit | "t" -> KTrip | s -> failwith ("kind " ^ s)
+let kind_of = function "f" -> KFetch | "r" -> KRead | "m" -> KCommit | "t" | "w" -> KTrip | s -> failwith ("kind " ^ s)
 let res_of = function
   | "msg" -> RMsg | "nil" -> RNil | "eof" -> REOF | "cp" -> RClosedPipe | "ctx" -> RCtx | "oth" -> ROther
   | s -> failwith ("res " ^ s)
